@@ -60,9 +60,30 @@ pub fn fnv(h: &mut u64, bytes: &[u8]) {
     }
 }
 
-/// panics the library documents for parameters outside a property's domain
-fn documented_panic(msg: &str) -> bool {
-    msg.contains("Cannot call none() on a non-float type")
+/// The library documents one panic for parameters outside the properties' domain: asking a
+/// non-nullable element type (i32) for its null. It is accepted only when the program really
+/// asks for one: a `vshift` / `vdiff` without a fill value, the padding of `vpartition`, or
+/// `collect_vec1_opt` of a stream that holds a `None`. Anywhere else the same panic means the
+/// library evaluated a null it had no reason to evaluate, and is a failure.
+fn documented_panic(p: &Pipe, msg: &str, expected: Option<&[Obs]>) -> bool {
+    if !msg.contains("Cannot call none() on a non-float type") {
+        return false;
+    }
+    let view_asks = |op: &ViewOp| matches!(op, ViewOp::VDiff { fill: None, .. } | ViewOp::VPart { .. });
+    if view_asks(&p.root) {
+        return true;
+    }
+    for op in &p.ops {
+        match op {
+            Op::Wrap(Stage::VShift { fill: None, .. }) => return true,
+            Op::Wrap(Stage::Remat { op, .. }) if view_asks(op) => return true,
+            _ => {},
+        }
+    }
+    if let (Terminal::HandOff(Sink::OptCollect(_)), Some(e)) = (&p.terminal, expected) {
+        return e.iter().any(|o| matches!(o, Obs::N));
+    }
+    false
 }
 
 fn stage_at(p: &Pipe, cut: usize) -> String {
@@ -178,7 +199,7 @@ fn scan(p: &Pipe) -> Option<(&'static str, usize)> {
     for cut in 0..=p.ops.len() {
         match probe(p, cut) {
             Err(msg) => {
-                if msg.starts_with(HARNESS) || msg.starts_with("DOCUMENTED-ERR") || documented_panic(&msg) {
+                if msg.starts_with(HARNESS) || msg.starts_with("DOCUMENTED-ERR") || documented_panic(p, &msg, None) {
                     return None;
                 }
                 return Some(("H4", cut));
@@ -274,7 +295,7 @@ pub fn check_pipe(p: &Pipe) -> (Vec<Violation>, RunStats) {
                 } else if msg.starts_with("DOCUMENTED-ERR") {
                     st.hit("documented_err");
                     st.ended_early = Some(msg);
-                } else if documented_panic(&msg) {
+                } else if documented_panic(p, &msg, None) {
                     st.hit("documented_panic_non_nullable");
                     st.ended_early = Some(msg);
                 } else {
@@ -524,7 +545,7 @@ pub fn check_pipe(p: &Pipe) -> (Vec<Violation>, RunStats) {
                                 });
                             }
                         },
-                        Err(msg) => terminal_failure(&mut viol, &mut st, p, msg),
+                        Err(msg) => terminal_failure(&mut viol, &mut st, p, msg, expected),
                     }
                 },
                 Terminal::Drop => {
@@ -546,7 +567,7 @@ pub fn check_pipe(p: &Pipe) -> (Vec<Violation>, RunStats) {
                                 });
                             }
                         },
-                        Err(msg) => terminal_failure(&mut viol, &mut st, p, msg),
+                        Err(msg) => terminal_failure(&mut viol, &mut st, p, msg, expected),
                     }
                 },
                 Terminal::HandOff(sink) => {
@@ -563,7 +584,7 @@ pub fn check_pipe(p: &Pipe) -> (Vec<Violation>, RunStats) {
                             fnv(&mut digest, format!("{:?}", c.sink).as_bytes());
                             check_sink(&mut viol, &mut st, p, sink, expected, &c)
                         },
-                        Err(msg) => terminal_failure(&mut viol, &mut st, p, msg),
+                        Err(msg) => terminal_failure(&mut viol, &mut st, p, msg, expected),
                     }
                 },
             }
@@ -639,10 +660,10 @@ fn sink_faults(st: &mut RunStats, sink: &Sink, expected: &[Obs]) {
     }
 }
 
-fn terminal_failure(viol: &mut Vec<Violation>, st: &mut RunStats, p: &Pipe, msg: String) {
+fn terminal_failure(viol: &mut Vec<Violation>, st: &mut RunStats, p: &Pipe, msg: String, expected: &[Obs]) {
     if msg.starts_with(HARNESS) {
         st.harness_error = Some(msg);
-    } else if msg.starts_with("DOCUMENTED-ERR") || documented_panic(&msg) {
+    } else if msg.starts_with("DOCUMENTED-ERR") || documented_panic(p, &msg, Some(expected)) {
         st.ended_early = Some(msg);
     } else {
         viol.push(Violation {
